@@ -616,10 +616,18 @@ class Ovld:
     def _update(self):
         if self._compiled:
             self.compile()
+        failure = None
         for child in self.children:
-            child._update()
+            # One child that cannot be rebuilt must not keep the change
+            # from reaching the others.
+            try:
+                child._update()
+            except Exception as exc:
+                failure = failure or exc
         if hasattr(self, "dispatch"):
             self.dispatch.__doc__ = self.mkdoc()
+        if failure is not None:
+            raise failure
 
     def copy(self, mixins=[], linkback=False):
         """Create a copy of this Ovld.
